@@ -2,10 +2,11 @@
 //! (1) writer fault enumeration on the real EMF formatter: every script with <=2 deviations
 //!     from "accept everything" (accept k bytes for every k, Ok(0), Interrupted, hard error, at
 //!     every call) and every "at most k bytes per call" script, for several record shapes;
-//! (2) sinks: every per-entry result script through FlushImmediately and Tee.
+//! (2) sinks: every per-entry result script through FlushImmediately and Tee;
+//! (3) histories of accepted / rejected entries through one real format stream.
 use metrique_writer::sink::{AnyFlushImmediately, FlushImmediately};
 use metrique_writer::stream::tee;
-use metrique_writer::{AnyEntrySink, Entry, EntryIoStream, EntrySink, IoStreamError, ValidationError};
+use metrique_writer::{AnyEntrySink, Entry, EntryIoStream, EntrySink, FormatExt, IoStreamError, ValidationError};
 use serde_json::json;
 use std::collections::BTreeSet;
 use std::io::{self, IoSlice, Write};
@@ -434,14 +435,164 @@ fn sink_part(rep: &mut Report) {
     rep.add_count("distinct_nontrivial", (scripts.len() + tee_scripts.len() * tee_scripts.len()) as u64);
 }
 
+// ------------------------------------------------------------------------------------------
+// (3) histories of accepted and rejected entries through ONE real format stream (directly and
+//     behind FlushImmediately), with at most one hard write error somewhere in the history
+
+#[derive(Clone)]
+struct SharedWriter {
+    got: Arc<Mutex<Vec<u8>>>,
+    calls: Arc<Mutex<usize>>,
+    /// the write call (counted over the whole history) that fails hard
+    fail_at: Option<usize>,
+}
+impl Write for SharedWriter {
+    fn write(&mut self, buf: &[u8]) -> io::Result<usize> {
+        let mut c = self.calls.lock().unwrap();
+        let idx = *c;
+        *c += 1;
+        if Some(idx) == self.fail_at {
+            return Err(io::Error::other("scripted hard error"));
+        }
+        self.got.lock().unwrap().extend_from_slice(buf);
+        Ok(buf.len())
+    }
+    fn flush(&mut self) -> io::Result<()> {
+        Ok(())
+    }
+}
+
+fn history_part(rep: &mut Report) {
+    let m = |obs: Vec<Obs>, dims: Vec<(String, String)>| ValD::Metric { obs, unit: UnitD::Milli, dims, flag: FlagD::None };
+    let cfg = CfgD::simple(Ctor::AllValidations);
+    let f = frame_minimal();
+    let valid_plain = build_entry(&cfg, f, vec![(s("M"), m(vec![Obs::U(7)], vec![])), (s("S"), ValD::Str(s("text")))]);
+    let valid_split = build_entry(&cfg, f, vec![(s("M"), m(vec![Obs::U(7)], vec![(s("k"), s("v"))])), (s("G"), m(vec![Obs::U(9)], vec![]))]);
+    let valid_edims = build_entry(&cfg, Frame { ts: TsD::Small, edims: EDimsD::One, dim_strings_last: false, always_split: false }, vec![(s("M"), m(vec![Obs::U(3)], vec![(s("k"), s("v"))]))]);
+    let mut dup = valid_plain.clone();
+    dup.ops.push(OpD::Value(s("M"), ValD::Str(s("again"))));
+    let mut no_split = build_entry(&cfg, f, vec![(s("R"), m(vec![Obs::U(666)], vec![(s("k"), s("v"))]))]);
+    no_split.ops.retain(|o| !matches!(o, OpD::Config(ConfD::Split)));
+    let mut split_dup = valid_split.clone();
+    split_dup.ops.push(OpD::Value(s("M"), m(vec![Obs::U(1)], vec![(s("k"), s("v"))])));
+    let mut split_err = valid_split.clone();
+    split_err.ops.push(OpD::Value(s("X"), ValD::Error(s("value error"))));
+    let kinds: Vec<(&str, EntryD, bool)> = vec![
+        ("valid-plain", valid_plain, true),
+        ("valid-split", valid_split, true),
+        ("valid-split-under-entry-dimensions", valid_edims, true),
+        ("rejected-duplicate-name", dup, false),
+        ("rejected-dimensions-without-split", no_split, false),
+        ("rejected-duplicate-in-split-record", split_dup, false),
+        ("rejected-value-error-after-split-metrics", split_err, false),
+    ];
+    let pristine = cfg.build();
+    // reference records of each kind on a fresh formatter
+    let refs: Vec<Vec<u8>> = kinds.iter().map(|(name, e, valid)| {
+        let mut out = Vec::new();
+        let o = run_fresh(&pristine, Mult::None, e, &mut out);
+        if (o == Outcome::Ok) != *valid {
+            println!("MACHINERY-FAILURE: history kind {name} is {o:?} on a fresh formatter");
+            std::process::exit(2);
+        }
+        out
+    }).collect();
+    let depth = rep.tier.pick(3u32, 4);
+    let n = kinds.len() as u64;
+    let mut total = 0u64;
+    for d in 1..=depth { total += n.pow(d); }
+    let states = par::for_each_index(total, 16, St::default, |st, mut idx| {
+        let mut len = 1;
+        while idx >= n.pow(len) { idx -= n.pow(len); len += 1; }
+        let mut seq = Vec::new();
+        for _ in 0..len { seq.push((idx % n) as usize); idx /= n; }
+        for via_sink in [false, true] {
+            // first without a fault (also tells how many write calls the history makes)
+            let mut fail_at: Option<usize> = None;
+            let mut max_calls = 0usize;
+            loop {
+                st.runs += 1;
+                let w = SharedWriter { got: Default::default(), calls: Default::default(), fail_at };
+                let entries: Vec<ScriptEntry<'_>> = seq.iter().map(|&k| kinds[k].1.compile()).collect();
+                let mut bounds = vec![0usize];
+                let mut calls_at = vec![0usize];
+                let mut results: Vec<Option<bool>> = Vec::new();
+                let r = std::panic::catch_unwind(std::panic::AssertUnwindSafe(|| {
+                    let mut stream = pristine.clone().output_to(w.clone());
+                    if via_sink {
+                        let sink = FlushImmediately::new(stream);
+                        for e in entries {
+                            sink.append(e);
+                            results.push(None);
+                            bounds.push(w.got.lock().unwrap().len());
+                            calls_at.push(*w.calls.lock().unwrap());
+                        }
+                    } else {
+                        for e in &entries {
+                            results.push(Some(stream.next(e).is_ok()));
+                            bounds.push(w.got.lock().unwrap().len());
+                            calls_at.push(*w.calls.lock().unwrap());
+                        }
+                    }
+                }));
+                let got = w.got.lock().unwrap().clone();
+                let names: Vec<&str> = seq.iter().map(|&k| kinds[k].0).collect();
+                let replay = json!({"history": names, "through": if via_sink { "FlushImmediately over Emf::output_to" } else { "Emf::output_to stream" }, "hard_error_at_write_call": fail_at, "received": String::from_utf8_lossy(&got)});
+                st.classes.insert(format!("history:{}:{}", names.join(","), fail_at.is_some()));
+                if r.is_err() {
+                    st.v.add("history:panicked", "appending panicked", replay);
+                } else {
+                    for (i, &k) in seq.iter().enumerate() {
+                        let seg = &got[bounds[i]..bounds[i + 1]];
+                        let faulted = fail_at.map(|c| c >= calls_at[i] && c < calls_at[i + 1]).unwrap_or(false);
+                        let valid = kinds[k].2;
+                        let verdict = if !valid {
+                            if seg.is_empty() { Ok(()) } else { Err("a rejected entry put bytes on the writer".to_string()) }
+                        } else {
+                            consistent(&refs[k], seg, !faulted)
+                        };
+                        if let Err(msg) = verdict {
+                            st.v.add(format!("history:bytes-of-entry-differ:{}", kinds[k].0), format!("entry {i} ({}) of the history: {msg}", kinds[k].0), replay.clone());
+                        }
+                        if let Some(ok) = results[i] {
+                            if ok != (valid && !faulted) {
+                                st.v.add(format!("history:result:{}", kinds[k].0), format!("entry {i} ({}) returned ok={ok}, expected {}", kinds[k].0, valid && !faulted), replay.clone());
+                            }
+                        }
+                    }
+                }
+                if fail_at.is_none() {
+                    max_calls = *w.calls.lock().unwrap();
+                }
+                let next = fail_at.map(|c| c + 1).unwrap_or(0);
+                if next >= max_calls { break; }
+                fail_at = Some(next);
+            }
+        }
+    });
+    let mut runs = 0;
+    let mut classes = BTreeSet::new();
+    for s in states {
+        runs += s.runs;
+        classes.extend(s.classes);
+        rep.violations.merge(s.v);
+    }
+    rep.set("history_runs", runs);
+    rep.set("history_depth", depth);
+    rep.set("history_entry_kinds", kinds.iter().map(|k| k.0).collect::<Vec<_>>());
+    rep.add_count("evaluations", runs);
+    rep.add_count("distinct_nontrivial", classes.len() as u64);
+}
+
 fn main() {
     let mut rep = Report::from_args("C16", "fault_enumeration");
     let prev = std::panic::take_hook();
     std::panic::set_hook(Box::new(|_| {}));
     writer_part(&mut rep);
     sink_part(&mut rep);
+    history_part(&mut rep);
     std::panic::set_hook(prev);
-    rep.set("rule", "writer: for 6 record shapes (single line, strings only, 3 namespaces, sampled with weight 2, all builder options + entry dimensions, split into 3 lines) every script with at most 2 deviations from 'accept everything' - at every write call: accept k bytes for EVERY 1<=k<offered, Ok(0), Interrupted, hard error (second deviation at every later call of the run; for records above 400 bytes the second deviation's k is taken from {1, half, all-but-one} in the quick tier) - and every 'at most k bytes per call' script; sinks: every {Ok,Validation,Io}^n result script x every flush-error subset through FlushImmediately (typed, boxed, any) and every pair of scripts through Tee. distinct = distinct (shape, deviation kinds) classes + distinct result scripts");
+    rep.set("rule", "writer: for 6 record shapes (single line, strings only, 3 namespaces, sampled with weight 2, all builder options + entry dimensions, split into 3 lines) every script with at most 2 deviations from 'accept everything' - at every write call: accept k bytes for EVERY 1<=k<offered, Ok(0), Interrupted, hard error (second deviation at every later call of the run; for records above 400 bytes the second deviation's k is taken from {1, half, all-but-one} in the quick tier) - and every 'at most k bytes per call' script; sinks: every {Ok,Validation,Io}^n result script x every flush-error subset through FlushImmediately (typed, boxed, any) and every pair of scripts through Tee; histories: every sequence (depth 3 / 4) over 3 accepted and 4 rejected entry kinds through one real Emf::output_to stream, directly and behind FlushImmediately, without a fault and with a hard error at every write call of the history - the bytes the writer received during each entry are that entry's records (nothing for a rejected one). distinct = distinct (shape, deviation kinds) classes + distinct result scripts");
     rep.set("exhaustive", true);
     rep.assume("background queue under stream errors: explored under loom in C01 (all result scripts) - not repeated here");
     rep.assume("accepted bytes are compared with the records of an all-accepting writer as a multiset of lines (split records have no defined order)");
